@@ -229,6 +229,13 @@ def table():
     for key, cond in (("and", ["and", c1, c2]), ("or", ["or", c1, c2]), ("and-or", ["or", ["and", c1, c2], c3]), ("or-and", ["or", c1, ["and", c2, c3]]),
                       ("not", ["not", c1]), ("not-and", ["and", ["not", c1], c2]), ("and-and", ["and", ["and", c2, c3], c1])):
         out.append(("if-" + key, ["if", cond, A, D]))
+    # IF as the (possibly unparenthesised) right operand of + and -, with a true and with a false condition
+    cf = ["cmp", ">", A, ["bin", "*", A, ["num", 2.0]]]
+    for op in ("+", "-"):
+        out.append(("if-as-right-operand-true@%s" % op, ["bin", op, C, ["if", c1 if False else ["cmp", "<", B, A], ["num", 10.0], ["num", 20.0]]]))
+        out.append(("if-as-right-operand-false@%s" % op, ["bin", op, C, ["if", cf, ["num", 10.0], ["num", 20.0]]]))
+        out.append(("if-as-right-operand-in-arg@%s" % op, ["call", "MIN", ["bin", op, C, ["if", cf, B, A]], ["num", 100.0]]))
+        out.append(("if-in-else-branch@%s" % op, ["if", cf, A, ["bin", op, C, ["if", cf, B, D]]]))
     out.append(("nested-if-then", ["if", c1, ["if", c2, A, B], C]))
     out.append(("nested-if-else", ["if", c1, A, ["if", c2, B, C]]))
     return out
@@ -244,11 +251,11 @@ def style(i, rng):
         for n, _ in CONSTS:
             names[n] = n.replace(" ", "_")
     elif i == 1:
-        st = XM.Style(rng, spaces=False, case="upper")
+        st = XM.Style(rng, spaces=False, case="upper", bare_if=True)
         for n, _ in CONSTS:
             names[n] = n.replace(" ", "_").upper()
     elif i == 2:
-        st = XM.Style(rng, spaces="random", case="lower")
+        st = XM.Style(rng, spaces="random", case="lower", bare_if=True)
         for n, _ in CONSTS:
             names[n] = n.replace(" ", "_").lower()
     else:
